@@ -138,7 +138,7 @@ package main
 //@   assigns nothing
 
 //@ func processMongoLogStream
-//@   props C08 C06
+//@   props C08 C06 C02
 //@   safety C07
 //@   assigns GoMaps, wfailOn, scanErr, outN, stderrN, scannedN, decUseNumber, Arr:Val, Mem:OMap
 //@   allocs Arr:Str
@@ -438,7 +438,10 @@ package main
 
 //@ func isRedactableFieldPatternInArray
 //@   safety C07
+//@   props C14
 //@   assigns nothing
+//@   loop 1 invariant none-so-far {C14}: !anyRefMatch(redactedFieldsRegexp, velems(arr), off(arr), _idx)
+//@   ensures some-field-reference-in-the-list-matches {C14}: result == (redactedFieldsRegexp != nil && anyRefMatch(redactedFieldsRegexp, velems(arr), off(arr), len(arr)))
 
 //@ func redactScalarValue
 //@   safety C07
@@ -489,7 +492,7 @@ package main
 
 //@ func redactArrayValuesWithKey
 //@   safety C07
-//@   props C01 C03 C14 C15
+//@   props C01 C03 C14 C15 C02
 //@   assigns Arr:Str, Arr:Val, GoMaps
 //@   allocs Arr:Int, Mem:OMap
 //@   local c := mkCfg(redactedString, redactNumbers, redactBooleans, shouldEncrypt && encryptionKey != nil, mkbytes(elems(encryptionKey), off(encryptionKey), len(encryptionKey)), redactedFieldsRegexp, emailRegex, redactNamespaces)
@@ -498,14 +501,14 @@ package main
 //@   loop 1 invariant key-path-frame: unchangedBelowExcept("Arr:Str", base(keyPath))
 //@   loop 1 invariant scalar-path: (len(keyPath) > 0 && scalarPath == keyPath) || (len(keyPath) == 0 && len(scalarPath) == 1 && scalarPath[0] == parentKey && base(scalarPath) != base(keyPath) && base(scalarPath) <= heapTop)
 //@   loop 1 mandatory
-//@   loop 1 each element-relation {C01,C03,C05}: ElemRelA(c, redactFieldNames, isSearchStage, ite(len(keyPath) > 0, keyPath[len(keyPath)-1], parentKey), item, arr[_idx])
+//@   loop 1 each element-relation {C01,C02,C03,C05}: ElemRelA(c, redactFieldNames, isSearchStage, ite(len(keyPath) > 0, keyPath[len(keyPath)-1], parentKey), item, arr[_idx])
 //@   ensures key-path-frame: unchangedBelowExcept("Arr:Str", base(keyPath))
 //@   defines array-relation {C01,C03,C05,C02}: RelA(c, redactFieldNames, isSearchStage, pk, arr) := true
 //@   at_call redactScalarValue scalars-are-matched-against-the-full-key-path {C14}: len(keyPath) == 0 || (arg_keyPath == keyPath && arg_isSelectivelyRedactable == isSelectivelyRedactable)
 
 //@ func redactArrayValues
 //@   safety C07
-//@   props C01 C03
+//@   props C01 C03 C02
 //@   assigns Arr:Str, Arr:Val, GoMaps
 //@   allocs Arr:Int, Mem:OMap
 //@   local c := mkCfg(redactedString, redactNumbers, redactBooleans, shouldEncrypt && encryptionKey != nil, mkbytes(elems(encryptionKey), off(encryptionKey), len(encryptionKey)), redactedFieldsRegexp, emailRegex, redactNamespaces)
@@ -515,7 +518,7 @@ package main
 
 //@ func redactQueryValues
 //@   safety C07
-//@   props C01 C03 C14 C15
+//@   props C01 C03 C14 C15 C02
 //@   assigns Arr:Str, Arr:Val, GoMaps
 //@   allocs Arr:Int, Mem:OMap
 //@   requires map: obj != nil
@@ -524,7 +527,7 @@ package main
 //@   loop 1 invariant frame: unchangedBelow("Mem:OMap") && newObj > old(heapTop) && newObj <= heapTop && !isTable(newObj) && (el == nil || elMap(el) == obj)
 //@   loop 1 invariant key-path-frame: unchangedBelowExcept("Arr:Str", base(keyPath))
 //@   loop 1 invariant position: el == nil || (0 <= elPos(el) && elPos(el) < omLen(om(obj)))
-//@   loop 1 invariant relation {C01,C03,C05}: QAcc(c, redactFieldNames, isSearchStage, old(om(obj)), ite(el == nil, omLen(old(om(obj))), elPos(el)), om(newObj))
+//@   loop 1 invariant relation {C01,C02,C03,C05}: QAcc(c, redactFieldNames, isSearchStage, old(om(obj)), ite(el == nil, omLen(old(om(obj))), elPos(el)), om(newObj))
 //@   ensures fresh-map: result > old(heapTop) && result <= heapTop && !isTable(result)
 //@   ensures key-path-frame: unchangedBelowExcept("Arr:Str", base(keyPath))
 //@   defines level-relation {C01,C03,C05,C02}: RelQ(c, redactFieldNames, isSearchStage, obj, result) := QRel(c, redactFieldNames, isSearchStage, old(om(obj)), om(result))
@@ -550,14 +553,14 @@ package main
 
 //@ func redactPipelineStage
 //@   safety C07
-//@   props C01 C03 C04
+//@   props C01 C03 C04 C02
 //@   assigns Arr:Str, Arr:Val, GoMaps
 //@   allocs Arr:Int, Mem:OMap
 //@   local c := mkCfg(redactedString, redactNumbers, redactBooleans, shouldEncrypt && encryptionKey != nil, mkbytes(elems(encryptionKey), off(encryptionKey), len(encryptionKey)), redactedFieldsRegexp, emailRegex, redactNamespaces)
 //@   local A := om(mapOf(stage))
 //@   loop 1 invariant frame: unchangedBelow("Mem:OMap") && newMap > old(heapTop) && newMap <= heapTop && !isTable(newMap) && (el == nil || (elMap(el) == mapOf(stage) && 0 <= elPos(el) && elPos(el) < omLen(A)))
 //@   loop 1 invariant key-path-frame: unchangedBelowExcept("Arr:Str", base(keyPath))
-//@   loop 1 invariant relation {C01,C03,C04,C05,C12}: PAcc(c, redactFieldNames, inSearchStage, A, ite(el == nil, omLen(A), elPos(el)), om(newMap))
+//@   loop 1 invariant relation {C01,C02,C03,C04,C05,C12}: PAcc(c, redactFieldNames, inSearchStage, A, ite(el == nil, omLen(A), elPos(el)), om(newMap))
 //@   loop 2 invariant frame: unchangedBelow("Mem:OMap") && newPipelineMap > old(heapTop) && newPipelineMap <= heapTop && !isTable(newPipelineMap) && newPipelineMap != newMap && (subEl == nil || (elMap(subEl) == vMap && 0 <= elPos(subEl) && elPos(subEl) < omLen(old(om(vMap)))))
 //@   loop 2 invariant key-path-frame: unchangedBelowExcept("Arr:Str", base(keyPath))
 //@   loop 2 invariant outer-relation: PAcc(c, redactFieldNames, inSearchStage, A, elPos(el), om(newMap))
@@ -569,29 +572,29 @@ package main
 //@   loop 5 invariant frame: unchangedBelow("Mem:OMap") && newSubMap > old(heapTop) && newSubMap <= heapTop && !isTable(newSubMap) && newSubMap != newMap && (subEl == nil || (elMap(subEl) == subMap && 0 <= elPos(subEl) && elPos(subEl) < omLen(old(om(subMap)))))
 //@   loop 5 invariant key-path-frame: unchangedBelowExcept("Arr:Str", base(keyPath))
 //@   loop 5 invariant outer-relation: PAcc(c, redactFieldNames, inSearchStage, A, elPos(el), om(newMap)) && (isTable(mapOf(opMeta)) || (inSearchStage && AugState(om(mapOf(opMeta))) && implies(redactedFieldsRegexp == nil, TableState(om(mapOf(opMeta))))))
-//@   loop 5 invariant relation-sub {C01,C03,C04,C05,C12}: PAcc(c, redactFieldNames, inSearchStage, old(om(subMap)), ite(subEl == nil, omLen(old(om(subMap))), elPos(subEl)), om(newSubMap))
+//@   loop 5 invariant relation-sub {C01,C02,C03,C04,C05,C12}: PAcc(c, redactFieldNames, inSearchStage, old(om(subMap)), ite(subEl == nil, omLen(old(om(subMap))), elPos(subEl)), om(newSubMap))
 //@   loop 6 invariant key-path-frame: unchangedBelowExcept("Arr:Str", base(keyPath))
 //@   loop 6 each element-relation {C01,C03}: RelS(c, redactFieldNames, inSearchStage, elem, redactedArr[_idx])
 //@   assert_after (*orderedmap.OrderedMap).Set@newMap entry-done {C01,C03,C04}: PAcc(c, redactFieldNames, inSearchStage, A, elPos(el) + 1, om(newMap))
 //@   assert_after (*orderedmap.OrderedMap).Set@newSubMap sub-entry-done {C01,C03,C04}: PAcc(c, redactFieldNames, inSearchStage, old(om(subMap)), elPos(subEl) + 1, om(newSubMap))
-//@   at_call (*orderedmap.OrderedMap).Set@newMap entry-relation {C01,C03,C04,C05,C12}: implies(!((!redactFieldNames && opMeta == VOp(3) && polExprKey(k) && isMap(v) && value == v) || (opMeta == VOp(1) && isArr(v) && value == v) || (redactNamespaces && opMeta == VOp(6) && !isStr(v) && value == v)), keyOKq(c, redactFieldNames, k, key) && ElemRelP(c, redactFieldNames, inSearchStage, k, v, value, om(mapOf(v)), om(mapOf(value))))
+//@   at_call (*orderedmap.OrderedMap).Set@newMap entry-relation {C01,C02,C03,C04,C05,C12}: implies(!((!redactFieldNames && opMeta == VOp(3) && polExprKey(k) && isMap(v) && value == v) || (opMeta == VOp(1) && isArr(v) && value == v) || (redactNamespaces && opMeta == VOp(6) && !isStr(v) && value == v)), keyOKq(c, redactFieldNames, k, key) && ElemRelP(c, redactFieldNames, inSearchStage, k, v, value, om(mapOf(v)), om(mapOf(value))))
 //@   at_call (*orderedmap.OrderedMap).Set@newMap entry-relation-expression-document-kept-under-a-field-name-key {C01}: implies((!redactFieldNames && opMeta == VOp(3) && polExprKey(k) && isMap(v) && value == v), keyOKq(c, redactFieldNames, k, key) && ElemRelP(c, redactFieldNames, inSearchStage, k, v, value, om(mapOf(v)), om(mapOf(value))))
 //@   at_call (*orderedmap.OrderedMap).Set@newMap entry-relation-array-kept-under-an-exempt-key {C01}: implies((opMeta == VOp(1) && isArr(v) && value == v) && !(!redactFieldNames && opMeta == VOp(3) && polExprKey(k) && isMap(v) && value == v), keyOKq(c, redactFieldNames, k, key) && ElemRelP(c, redactFieldNames, inSearchStage, k, v, value, om(mapOf(v)), om(mapOf(value))))
 //@   at_call (*orderedmap.OrderedMap).Set@newMap entry-relation-namespace-document-kept-under-the-flag {C12}: implies((redactNamespaces && opMeta == VOp(6) && !isStr(v) && value == v) && !(!redactFieldNames && opMeta == VOp(3) && polExprKey(k) && isMap(v) && value == v) && !(opMeta == VOp(1) && isArr(v) && value == v), keyOKq(c, redactFieldNames, k, key) && ElemRelP(c, redactFieldNames, inSearchStage, k, v, value, om(mapOf(v)), om(mapOf(value))))
-//@   at_call (*orderedmap.OrderedMap).Set@newSubMap sub-entry-relation {C01,C03,C04,C05,C12}: implies(!((!redactFieldNames && subMeta == VOp(3) && polExprKey(subK) && isMap(subV) && value == subV) || (subMeta == VOp(1) && isArr(subV) && value == subV) || (redactNamespaces && subMeta == VOp(6) && !isStr(subV) && value == subV)), keyOKq(c, redactFieldNames, subK, key) && ElemRelP(c, redactFieldNames, inSearchStage, subK, subV, value, om(mapOf(subV)), om(mapOf(value))))
+//@   at_call (*orderedmap.OrderedMap).Set@newSubMap sub-entry-relation {C01,C02,C03,C04,C05,C12}: implies(!((!redactFieldNames && subMeta == VOp(3) && polExprKey(subK) && isMap(subV) && value == subV) || (subMeta == VOp(1) && isArr(subV) && value == subV) || (redactNamespaces && subMeta == VOp(6) && !isStr(subV) && value == subV)), keyOKq(c, redactFieldNames, subK, key) && ElemRelP(c, redactFieldNames, inSearchStage, subK, subV, value, om(mapOf(subV)), om(mapOf(value))))
 //@   at_call (*orderedmap.OrderedMap).Set@newSubMap sub-entry-relation-expression-document-kept-under-a-field-name-key {C01}: implies((!redactFieldNames && subMeta == VOp(3) && polExprKey(subK) && isMap(subV) && value == subV), keyOKq(c, redactFieldNames, subK, key) && ElemRelP(c, redactFieldNames, inSearchStage, subK, subV, value, om(mapOf(subV)), om(mapOf(value))))
 //@   at_call (*orderedmap.OrderedMap).Set@newSubMap sub-entry-relation-array-kept-under-an-exempt-key {C01}: implies((subMeta == VOp(1) && isArr(subV) && value == subV) && !(!redactFieldNames && subMeta == VOp(3) && polExprKey(subK) && isMap(subV) && value == subV), keyOKq(c, redactFieldNames, subK, key) && ElemRelP(c, redactFieldNames, inSearchStage, subK, subV, value, om(mapOf(subV)), om(mapOf(value))))
 //@   at_call (*orderedmap.OrderedMap).Set@newSubMap sub-entry-relation-namespace-document-kept-under-the-flag {C12}: implies((redactNamespaces && subMeta == VOp(6) && !isStr(subV) && value == subV) && !(!redactFieldNames && subMeta == VOp(3) && polExprKey(subK) && isMap(subV) && value == subV) && !(subMeta == VOp(1) && isArr(subV) && value == subV), keyOKq(c, redactFieldNames, subK, key) && ElemRelP(c, redactFieldNames, inSearchStage, subK, subV, value, om(mapOf(subV)), om(mapOf(value))))
 //@   at_call (*orderedmap.OrderedMap).Set@newPipelineMap facet-entry-relation {C01,C03}: key == subK && FacetEntryRel(subV, value)
 //@   ensures key-path-frame: unchangedBelowExcept("Arr:Str", base(keyPath))
 //@   ensures result-kind {C03}: (isMap(stage) && isMap(result) && mapOf(result) > old(heapTop) && mapOf(result) <= heapTop && !isTable(mapOf(result))) || (isArr(stage) && result == stage) || (!isMap(stage) && !isArr(stage) && result == stage)
-//@   defines stage-relation {C01,C03,C04,C05,C12}: RelS(c, redactFieldNames, inSearchStage, stage, result) := (isMap(stage) && isMap(result) && PRel(c, redactFieldNames, inSearchStage, A, om(mapOf(result)))) || (isArr(stage) && result == stage && RelA(c, redactFieldNames, inSearchStage, ite(len(keyPath) > 0, keyPath[len(keyPath)-1], ""), arrOf(stage))) || (!isMap(stage) && !isArr(stage) && result == stage)
+//@   defines stage-relation {C01,C02,C03,C04,C05,C12}: RelS(c, redactFieldNames, inSearchStage, stage, result) := (isMap(stage) && isMap(result) && PRel(c, redactFieldNames, inSearchStage, A, om(mapOf(result)))) || (isArr(stage) && result == stage && RelA(c, redactFieldNames, inSearchStage, ite(len(keyPath) > 0, keyPath[len(keyPath)-1], ""), arrOf(stage))) || (!isMap(stage) && !isArr(stage) && result == stage)
 //@   loop 1 each exempt-parameters-are-kept-as-they-are {C04}: implies(opMeta == VOp(1) && !isArr(v), omIdx(om(newMap), redactedKey) >= 0 && omVal(om(newMap), omIdx(om(newMap), redactedKey)) == v)
 //@   loop 5 each exempt-parameters-are-kept-as-they-are {C04}: implies(subMeta == VOp(1) && subFound && !isArr(subV), omIdx(om(newSubMap), subK) >= 0 && omVal(om(newSubMap), omIdx(om(newSubMap), subK)) == subV)
 
 //@ func redactCommand
 //@   safety C07
-//@   props C01 C04 C03
+//@   props C01 C04 C03 C02
 //@   assigns Arr:Val, GoMaps, Mem:OMap
 //@   allocs Arr:Int, Arr:Str
 //@   requires not-a-table: !isTable(cmd)
